@@ -295,3 +295,57 @@ def run_ehist(ops):
     finally:
         _state["exact"] = False
     return "ehist|%s|%s" % (";".join(enc), "#".join(obs))
+
+
+def _obs_rows(engine):
+    rows = []
+    for layer in engine.getLayers() or []:
+        rows.append(",".join("%s:%s:%s:%d:%s:%d" % (fr(n.idealPos), fr(n.width), fr(bool(n.isStub())), n.layerIndex, fr(n.currentPos), n.data["i"]) for n in layer))
+    return "@".join(rows)
+
+
+def run_mhist(ops):
+    """an interleaving of operations on SEVERAL real Force objects alive at the same time, which share the caller's list objects and the Node
+    objects in them, in exact arithmetic: ("new", opts) ("switch", k) ("options", delta) ("nodes", labels) ("use", b) ("compute",).
+    Returns (the `mhist` driver line, [(compute number, engine, what a FRESH engine with the same accumulated options reports for fresh
+    nodes with the same data in the list's current order, what this engine reported)] for the computes where the two differ)."""
+    _state["exact"] = True
+    _state["layers"] = None
+    enc, obs, differ = [], [], []
+    engines, accs, refs, lists = [], [], [], []
+    cur = None
+    cv = lambda d: {k: (conv(v, True) if k != "algorithm" else v) for k, v in d.items()}
+    try:
+        for op in ops:
+            if op[0] == "new":
+                accs.append(dict(op[1])); engines.append(force_mod.Force(cv(op[1]))); refs.append(None)
+                cur = len(engines) - 1
+                enc.append("E~" + _eopts(accs[cur]))
+            elif op[0] == "switch":
+                cur = op[1]; enc.append("W~%d" % op[1])
+            elif op[0] == "options":
+                accs[cur].update(op[1]); engines[cur].set_options(cv(op[1]))
+                enc.append("O~" + _eopts(accs[cur]))
+            elif op[0] == "nodes":
+                x = [Node(Fraction(p), Fraction(w), data={"i": i}) for i, (p, w) in enumerate(op[1])]
+                lists.append(x); engines[cur].nodes(x); refs[cur] = len(lists) - 1
+                enc.append("N~" + ",".join("%s:%s" % (fr(Fraction(p)), fr(Fraction(w))) for p, w in op[1]))
+            elif op[0] == "use":
+                engines[cur].nodes(lists[op[1]]); refs[cur] = op[1]
+                enc.append("L~%d" % op[1])
+            elif op[0] == "compute":
+                now = [(n.idealPos, n.width, n.data["i"]) for n in (lists[refs[cur]] if refs[cur] is not None else [])]
+                engines[cur].compute()
+                enc.append("C")
+                got = _obs_rows(engines[cur])
+                obs.append("%d>%s" % (cur, got))
+                fresh = force_mod.Force(cv(accs[cur]))
+                if now:
+                    fresh.nodes([Node(p, w, data={"i": i}) for p, w, i in now])
+                fresh.compute()
+                want = _obs_rows(fresh)
+                if want != got:
+                    differ.append((len(obs) - 1, cur, want, got))
+    finally:
+        _state["exact"] = False
+    return "mhist|%s|%s" % (";".join(enc), "#".join(obs)), differ
